@@ -11,7 +11,7 @@ import (
 
 func init() {
 	register("C07",
-		"Decides the structural premises of the blocked-reader wake-up protocol: the reader publishes waitReadSize and then re-reads the length before every blocking receive (reader side of the Dekker pair; the poller side is C06.R3); every receive on the read trigger is guarded by closing==none and the closed branches return ErrEOF (poller) / ErrConnClosed (user); onHup/onClose push a non-nil error on both triggers after a successful closeBy and before the callbacks; the trigger is a capacity-1 channel written by non-blocking sends; the reused timer is stopped-and-drained or consumed on every path; ErrReadTimeout is only returned right after observing Len()<n with no blocking in between; buffer operations of the Reader methods happen only when waitRead returned nil with the same n; methods are invoked on the optional address fields only under a nil guard. Not decided: real-time bounds, timer expiry racing with delivery beyond these shapes.",
+		"Decides the structural premises of the blocked-reader wake-up protocol: the reader publishes waitReadSize and then re-reads the length before every blocking receive (reader side of the Dekker pair; the poller side is C06.R3); every receive on the read trigger is guarded by closing==none and the closed branches return ErrEOF (poller) / ErrConnClosed (user); onHup/onClose push a non-nil error on both triggers after a successful closeBy and before the callbacks; the trigger is a capacity-1 channel written by non-blocking sends; the reused timer is stopped-and-drained or consumed on every path; ErrReadTimeout is only returned right after observing Len()<n with no blocking in between; buffer operations of the Reader methods happen only when waitRead returned nil with the same n; methods are invoked on the optional address fields only under a nil guard. The read-timeout option reaches SetReadTimeout; the deadline/timeout setters record their argument on every path; the close paths push ErrEOF (peer) / ErrConnClosed (user) to a parked reader. Not decided: real-time bounds, timer expiry racing with delivery beyond these shapes.",
 		[]string{"sync/atomic is linearizable", "Go channel and time.Timer semantics"},
 		func(r *Run) {
 			cfgs := []string{"linux"}
